@@ -15,6 +15,9 @@ run_one() {
 "; }
   done
   if [ -z "$fired" ]; then echo "$(basename $p): silent"; else echo "$(basename $p): FALSE ALARM in$fired"; echo -n "$rep"; fi
+  # the fact set of this scratch tree is of no further use: drop it (a full run would otherwise leave ~40 MB per patch behind)
+  h=$(cd /verif && VERIF_REPO="$S" python3 -c "import sys; sys.path.insert(0, '/verif'); from rules.lib import facts; print(facts.tree_hash())" 2>/dev/null)
+  [ -n "$h" ] && [ ${#h} -eq 20 ] && rm -rf "/verif/.work/facts/$h" "/verif/.work/witness/$h"
   rm -rf "$S"
 }
 export -f run_one
